@@ -37,6 +37,25 @@ describe(
 def split_call_in(cx: Cx, fn, ob: Ob):
     s = cx.summary(fn, ob.id)
     hits = [(c, ev, ctx) for c, ev, ctx in s.calls() if op(c[1]) == "func" and c[1][1] == f"{API}._split"]
+    # ReferenceTuple.from_curie(curie, sep=...) is the same split (checked below / in C15-D3)
+    rt = [(c, ev, ctx) for c, ev, ctx in s.calls() if c[1] == ("attr", ("cls", f"{API}.ReferenceTuple"), "from_curie")]
+    if rt and not hits:
+        f2 = cx.model.functions.get(f"{API}.ReferenceTuple.from_curie")
+        if f2 is not None:
+            s2 = cx.summary(f2, ob.id)
+            via = [x for t, _ in s2.returns() for x in subterms(t) if op(x) == "call" and x[1] == ("func", f"{API}._split")]
+            ob.site(f"{f2.where} {f2.qualname}", "split delegated to ReferenceTuple.from_curie")
+            if not via:
+                ob.violate(
+                    f2.qualname,
+                    f2.where,
+                    f"{fn.name} splits through ReferenceTuple.from_curie, which does not go through _split: a string without the delimiter raises a builtin ValueError (unpacking) instead of NoCURIEDelimiterError, which is the only class {fn.name} handles",
+                    witness="expand('GO') raises ValueError instead of returning None",
+                    detail="split-not-via-_split",
+                )
+            elif not all(dict(x[3]).get("sep") == ("param", "sep") for x in via):
+                ob.violate(f2.qualname, f2.where, "ReferenceTuple.from_curie does not pass its sep on to _split", detail="sep-not-forwarded")
+        hits = rt
     return s, hits
 
 
